@@ -592,10 +592,12 @@ def run(tier):
         if r[0] != 1:
             if off == 0:
                 finding({"kind": "transform_assertion", "axis": axis}, {"case": c, "meta": me}, "transform raises on a valid full-width stripe")
-            else:
+            elif s > 1:
                 finding({"kind": "read_offset_%s" % ("height" if axis == "h" else "width_strided")},
                         {"case": c, "meta": me, "result": "Box assertion (start > end)", "read_offset": off, "stride": s},
                         "read offset %d along %s, stride %d: the IFM box is inverted (offset multiplied by the stride)" % (off, axis, s))
+            else:
+                finding({"kind": "transform_assertion", "axis": axis}, {"case": c, "meta": me}, "transform raises on a stride-1 read window")
             continue
         pcases.append([0, 0] + padding + [1, 1, r[9], r[10], 1 if off else 0, off if axis == "w" else 0, W if axis == "w" else 5,
                        full if axis == "w" else 5, r[3], r[7]])
@@ -619,19 +621,21 @@ def run(tier):
                        pad_after=bb, ofm_extent=Wo, write_offset=woff, ifm_box=[tr[2 if axis == "h" else 3], tr[6 if axis == "h" else 7]],
                        hw_pad_before=pr[0 if axis == "h" else 1], hw_pad_after=pr[2 if axis == "h" else 3], ofm_index=mm[0], tap=mm[1],
                        hardware_reads=mm[2], operator_reads=mm[3], skirt=skirt, op_padding=padding)
-            if off and axis == "h":
+            known_broken = off and (s > 1 if axis == "w" else (s > 1 or padding[0] + padding[2] > 0))
+            if known_broken and axis == "h":
                 finding({"kind": "read_offset_height"}, wit,
                         "operator reading rows [%d,%d) of a taller tensor (split/slice fused into the consumer), k=%d s=%d %s: the height clip "
                         "ignores the read window: hardware reads %s, operator reads %s" % (off, off + W, k, s, pad, mm[2], mm[3]),
                         prio=(0 if (s == 1 and pad == "SAME" and k == 3 and d == 1 and isinstance(mm[2], int)) else 2 if isinstance(mm[2], int) else 4))
-            elif off:
+            elif known_broken:
                 finding({"kind": "read_offset_width_strided"}, wit,
                         "operator reading columns [%d,%d) of a wider tensor with stride %d: the read offset is multiplied by the stride: "
                         "hardware reads %s, operator reads %s" % (off, off + W, s, mm[2], mm[3]),
                         prio=(0 if (s == 2 and pad == "SAME" and k == 3 and d == 1 and isinstance(mm[2], int)) else 2 if isinstance(mm[2], int) else 4))
             else:
                 finding({"kind": "tap_mismatch", "axis": axis, "stride": s}, wit,
-                        "full-width stripe of W=%d k=%d s=%d d=%d %s: hardware reads %s, operator reads %s" % (W, k, s, d, pad, mm[2], mm[3]))
+                        "full-extent stripe of extent %d (read offset %d) k=%d s=%d d=%d %s: hardware reads %s, operator reads %s" % (
+                            W, off, k, s, d, pad, mm[2], mm[3]))
         elif mm:
             finding({"kind": "explicit_bottom_padding_lost"}, dict(axis=axis, extent=W, kernel=k, stride=s, pad_before=t, pad_after=bb,
                                                                               hw_pad_after=pr[3], hardware_reads=mm[2], operator_reads=mm[3]),
@@ -1022,8 +1026,8 @@ def run(tier):
                         mm = stripe_tap_mismatch(cmd["ifm_box"]["start"][ai], cmd["ifm_box"]["end"][ai], p0, p1, ob["start"][ai], ob["end"][ai], ss_, kk, dd,
                                                  lo_, hi_, top, woff[ai], rmode)
                         if mm:
-                            kind = ("read_offset_height" if (roff and roff[1] and axis == "h") else
-                                    "read_offset_width_strided" if (roff and roff[2] and axis == "w") else "tap_mismatch")
+                            kind = ("read_offset_height" if (roff and roff[1] and axis == "h" and (ss_ > 1 or opad[0] + opad[2] > 0)) else
+                                    "read_offset_width_strided" if (roff and roff[2] and axis == "w" and ss_ > 1) else "tap_mismatch")
                             finding(dict({"kind": kind}, **({"axis": axis, "stride": ss_} if kind == "tap_mismatch" else {})),
                                     {"net": r.get("net_name"), "seed": r["job"]["seed"], "args": r["job"]["args"], "pass": cmd["pass"],
                                      "ofm_box": ob, "ifm_box": cmd["ifm_box"], "hw_padding": pad, "kernel": kern, "op_padding": opad,
